@@ -231,8 +231,25 @@ def poly_of_value(v) -> Optional[Poly]:
     return None
 
 
-def sign_table_obj(signature: List[int], log: Optional[list] = None) -> Obj:
+def sign_table_obj(signature: List[int], log: Optional[list] = None, lazy: bool = False) -> Obj:
+    """Stand-in for Algebra.signs.  lazy=True models the DefaultKeyDict used above six dimensions: entries exist
+    only after they were requested by subscription (dict.get / `in` do not trigger __missing__)."""
+    cache = {}
+
     def getitem(key):
+        v = _getitem(key)
+        cache[key] = v
+        return v
+
+    def get(key, default=None):
+        if lazy:
+            return cache.get(key, default)
+        try:
+            return _getitem(key)
+        except Raised:
+            return default
+
+    def _getitem(key):
         if not (isinstance(key, tuple) and len(key) == 2 and all(isinstance(k, int) for k in key)):
             raise Raised("KeyError")
         if log is not None:
@@ -241,4 +258,8 @@ def sign_table_obj(signature: List[int], log: Optional[list] = None) -> Obj:
         if not (0 <= key[0] < n and 0 <= key[1] < n):
             raise Raised("KeyError")
         return spec_sign(key[0], key[1], signature)
-    return Obj("dict", getitem=getitem)
+    o = Obj("dict", {}, {"get": get}, getitem=getitem)
+
+    def compare(op, other):
+        return NotImplemented
+    return o
